@@ -40,6 +40,7 @@ THEOREMS = [
     "O2P.Gate.post_process_admits",
     "O2P.Gate.post_process_checked",
     "O2P.Gate.children_order_irrelevant",
+    "O2P.Gate.judge_is_sem",
 ]
 
 
